@@ -77,11 +77,35 @@ pub fn c01(opts: &Opts) -> Report {
                 ops = match ctx.rng.below(3) { 0 => vec![rep], 1 => vec![Op::Split(" ".into(), Range::Range(None, None, false)), Op::Map(vec![rep]), Op::Join(" ".into())], _ => vec![rep, Op::Upper] };
                 ctx.rep.bump("literal_pattern_dollar_replacement");
             }
+            let shorthand = i % 12 == 9;
+            if shorthand {
+                // the first operation written in the documented shorthand ({N}, {A..B}, {..=B}, ...): every one of the ten
+                // range shapes in turn, then a kind-sensitive tail; the result is that of the pipeline written out in full
+                let k = (i / 12) as usize; let (a, b) = ([0i128, 1, -1, 2, -2][k % 5], [2i128, 1, -1, 3, 0][(k / 5) % 5]);
+                let r = match k % 10 { 0 => Range::Index(a), 1 => Range::Range(Some(a), Some(b), false), 2 => Range::Range(Some(a), Some(b), true), 3 => Range::Range(None, Some(b), false),
+                    4 => Range::Range(None, Some(b), true), 5 => Range::Range(Some(a), None, false), 6 => Range::Range(None, None, false), 7 => Range::Range(Some(a), Some(a), true),
+                    8 => Range::Range(None, Some(a), true), _ => Range::Index(b) };
+                let tail: Vec<Op> = match (k / 10) % 4 { 0 => vec![], 1 => vec![Op::Map(vec![Op::Upper])], 2 => vec![Op::Sort(SDir::Desc), Op::Join("+".into())], _ => vec![Op::Upper] };
+                ops = vec![Op::Split(" ".into(), r)]; ops.extend(tail);
+                input = ctx.rng.pick(&["a b c d e", "one two", "x", "", "p  q é ü"]).to_string();
+                ctx.rep.bump("shorthand_first_operation");
+            }
             let t = triple(ctx, &ops, &input, false);
             ctx.rep.eval();
             hist(ctx, &ops, &input, &t.real);
             if ops.len() >= 2 || t.real == Out::Err { ctx.rep.nontrivial(&(t.text.clone(), input.clone())); }
             if i < 3 { ctx.rep.sample(format!("{} on {:?} -> {}", t.text, input, t.real.show())); }
+            if shorthand {
+                if let Op::Split(_, r) = &ops[0] {
+                    let short = if ops.len() > 1 { format!("{{{}|{}}}", print_range(r), print_ops(&ops[1..])) } else { format!("{{{}}}", print_range(r)) };
+                    let got = real::parse_format(&short, &input);
+                    if got != t.spec {
+                        viol(ctx, format!("C01: format({short:?}, {input:?}) = {} but the documented semantics of the shorthand ({}) gives {}", got.show(), t.text, t.spec.show()),
+                             vec![("template", short), ("input", input.clone()), ("observed", got.show()), ("expected", t.spec.show()), ("theorem", "C01_refines / C02_shorthand".into())]);
+                        return;
+                    }
+                }
+            }
             judge(ctx, "C01", &t, &ops, &input, "C01_refines");
         })
 }
@@ -135,6 +159,15 @@ fn emptying_prefixes() -> Vec<Vec<Op>> {
         vec![Op::Split(",".into(), full.clone()), Op::Filter("^ZZZ$".into())],
         vec![Op::Split(",".into(), full.clone()), Op::Slice(Range::Range(Some(50), Some(60), false))],
         vec![Op::Split(",".into(), Range::Range(Some(9), Some(3), false))],
+        // not emptying, but kind-critical: an inclusive range with equal bounds selects a LIST of one item, by any carrier
+        vec![Op::Split(",".into(), Range::Range(Some(1), Some(1), true))],
+        vec![Op::Split(",".into(), Range::Range(Some(0), Some(0), true))],
+        vec![Op::Split(",".into(), Range::Range(Some(-1), Some(-1), true))],
+        vec![Op::Split(",".into(), full.clone()), Op::Slice(Range::Range(Some(1), Some(1), true))],
+        // a valid replace whose flag letters are repeated or unknown (accepted and ignored): success must not depend on the data
+        vec![Op::Replace("b".into(), "X".into(), "mm".into())],
+        vec![Op::Replace("a".into(), "X".into(), "e".into())],
+        vec![Op::Split(",".into(), full.clone()), Op::Map(vec![Op::Replace("b".into(), "X".into(), "ssp".into())])],
     ]
 }
 
@@ -531,6 +564,27 @@ pub fn c14(opts: &Opts) -> Report {
                 if t.real != exp { viol(ctx, format!("C14: {} on {:?} = {} but the engine gives {}", t.text, xin, t.real.show(), exp.show()), vec![("template", t.text.clone()), ("input", xin.clone()), ("observed", t.real.show()), ("expected", exp.show()), ("theorem", "C14_replace_is_engine".into())]); }
                 return;
             }
+            if i % 30 == 21 {
+                // empty items inside map: a pattern that matches the empty string rewrites them too, and a pattern that does
+                // not compile is an error even if every item is empty
+                let k = (i / 30) as usize;
+                let (pat, rep, fl) = [("^$", "NA", ""), ("x*", "-", ""), ("^", "> ", "m"), ("$", ";", "gims"), ("(", "x", ""), ("[a-", "y", "g"), ("\\b", "|", "g")][k % 7];
+                let xs = ["a,,b,", ",,", "", "x", ",a"][(k / 7) % 5];
+                let body = if (k / 35) % 2 == 0 { vec![Op::Replace(pat.into(), rep.into(), fl.into())] } else { vec![Op::Upper, Op::Replace(pat.into(), rep.into(), fl.into()), Op::Trim(String::new(), TDir::Both)] };
+                let ops = vec![Op::Split(",".into(), Range::Range(None, None, false)), Op::Map(body), Op::Join(",".into())];
+                let mut pfx = String::new(); for c in ['i', 'm', 's'] { if fl.contains(c) { pfx.push(c); } }
+                let full = if pfx.is_empty() { pat.to_string() } else { format!("(?{pfx}){pat}") };
+                if gens::raw_ok(pat, true) {
+                    let t = triple(ctx, &ops, xs, false);
+                    ctx.rep.eval(); ctx.rep.bump("empty_items_inside_map");
+                    if !judge(ctx, "C14", &t, &ops, xs, "C14_replace_is_engine") { return; }
+                    if ops.len() == 3 { if let Op::Map(b) = &ops[1] { if b.len() == 1 {
+                        let exp = match regex::Regex::new(&full) { Ok(re) => Out::Ok(xs.split(',').map(|w| if fl.contains('g') { re.replace_all(w, rep).to_string() } else { re.replace(w, rep).to_string() }).collect::<Vec<_>>().join(",")), Err(_) => Out::Err };
+                        if t.real != exp { viol(ctx, format!("C14: {} on {:?} = {} but the engine, item by item, gives {}", t.text, xs, t.real.show(), exp.show()), vec![("template", t.text.clone()), ("input", xs.to_string()), ("observed", t.real.show()), ("expected", exp.show()), ("theorem", "C14_replace_is_engine".into())]); }
+                    } } }
+                }
+                return;
+            }
             if i % 30 == 7 {
                 // items that contain a line break, patterns with an anchored .* (a dot does not match a newline)
                 let pat = ctx.rng.pick(&["^.*foo", "foo.*$", "^.*$", "^.*foo.*$", ".*foo", "^foo"]).to_string();
@@ -705,6 +759,21 @@ pub fn c15(opts: &Opts) -> Report {
                 }
             } else {
                 viol(ctx, format!("C15: filter on {:?} failed: {} {}", x, fi.show(), fnn.show()), vec![("input", x.clone()), ("template", format!("{sp}|filter:{pat}|join:\\n}}")), ("theorem", "C15_filter_partition".into())]); return;
+            }
+            // patterns that begin with a character some tools read as "not": here it is an ordinary regex character
+            if i % 10 == 4 {
+                let xin = "color: red !important;margin: 0;top: 1px !important;important: no;a != b;!";
+                let its: Vec<&str> = xin.split(';').collect();
+                for p3 in ["!important", "!=", "!", "^!", "!$", "-v", "~x", "\\!i"] {
+                    let re = regex::Regex::new(p3).unwrap();
+                    for neg in [false, true] {
+                        let text = format!("{{split:;:..|{}:{p3}|join:;}}", if neg { "filter_not" } else { "filter" });
+                        let got = real::parse_format(&text, xin);
+                        let want = Out::Ok(its.iter().filter(|w| re.is_match(w) != neg).cloned().collect::<Vec<_>>().join(";"));
+                        ctx.rep.bump("patterns_beginning_with_a_negation_sign");
+                        if got != want { viol(ctx, format!("C15: {text} on {xin:?} = {} but the engine partitions to {}", got.show(), want.show()), vec![("template", text), ("input", xin.into()), ("observed", got.show()), ("expected", want.show()), ("theorem", "C15_filter_partition".into())]); return; }
+                    }
+                }
             }
             // sort and sort:desc inside map
             if i % 10 == 8 {
